@@ -427,13 +427,13 @@ def job(cfg):
 
 def configs(tier):
     t = 60 if tier == "quick" else 300
-    cfgs = [{"type": "bernoulli", "D": D, "timeout": t} for D in ((1, 2) if tier == "quick" else (1, 2, 3))]
+    cfgs = [{"type": "bernoulli", "D": D, "timeout": t} for D in ((1, 2) if tier == "quick" else (1, 2, 3, 4, 5))]
     for kind in ("StandardNormal", "DiagonalNormal", "ConditionalDiagonalNormal"):
-        for shape in ([1], [2], [2, 1]):
+        for shape in (([1], [2], [2, 1]) if tier == "quick" else ([1], [2], [3], [2, 1], [1, 2], [2, 2])):
             cfgs.append({"type": "normal", "kind": kind, "shape": shape, "timeout": t})
-    for Fn, M in (((1, 1), (1, 2), (2, 1)) if tier == "quick" else ((1, 1), (1, 2), (2, 1), (2, 2))):
+    for Fn, M in (((1, 1), (1, 2), (2, 1)) if tier == "quick" else ((1, 1), (1, 2), (1, 3), (2, 1), (2, 2), (2, 3), (3, 1), (3, 2))):
         cfgs.append({"type": "mog", "F": Fn, "M": M, "timeout": t})
-    for N, D in ((1, 1), (2, 1), (2, 2)):
+    for N, D in (((1, 1), (2, 1), (2, 2)) if tier == "quick" else ((1, 1), (2, 1), (3, 1), (2, 2), (3, 2), (2, 3))):
         cfgs.append({"type": "kde", "N": N, "D": D, "timeout": t})
     return cfgs
 
